@@ -313,6 +313,18 @@ def ref_dis_py3(co):
             ci = getattr(ins, "cache_info", None)
             d["nc"] = sum(x[1] for x in ci) if ci else 0
         out.append(d)
+    if PYV >= (3, 11):
+        # is_jump_target as the property defines it: jump targets plus exception-handler
+        # targets (3.13's dis additionally labels the *ranges* of exception entries)
+        tgt = set(dis.findlabels(co.co_code))
+        for e in dis._parse_exception_table(co):
+            tgt.add(e.target)
+        if PYV < (3, 13):
+            for d in out:
+                if d["n"] != "CACHE" and d["j"] != (d["o"] in tgt):
+                    raise RuntimeError("reference self-check: dis.Bytecode is_jump_target at %d" % d["o"])
+        for d in out:
+            d["j"] = d["o"] in tgt
     res = {
         "instrs": out,
         "dis_findlabels": sorted(set(dis.findlabels(co.co_code))),
@@ -784,6 +796,31 @@ def x_instr_dump(co, opc, max_code=None, dup_lines=False):
         res["linestarts"] = [[a, b] for a, b in opc.findlinestarts(co)]
     except Exception as e:
         res["linestarts_err"] = "%s: %s" % (type(e).__name__, e)
+    if opc.version_tuple >= (3, 10) and not isinstance(co, types.CodeType):
+        if hasattr(co, "co_lines"):
+            try:
+                res["co_lines"] = [list(t) for t in co.co_lines()]
+            except Exception as e:
+                res["co_lines_err"] = "%s: %s" % (type(e).__name__, e)
+        if hasattr(co, "co_positions"):
+            # Code311.co_positions() yields one (code units, line, end line, col, end col) per
+            # table entry: expand to one 4-tuple per code unit, the shape CPython reports
+            try:
+                out = []
+                for t in co.co_positions():
+                    t = list(t)
+                    if len(t) == 5:
+                        out.extend([t[1:]] * t[0])
+                    else:
+                        out.append(t)
+                res["positions"] = out
+            except Exception as e:
+                res["positions_err"] = "%s: %s" % (type(e).__name__, e)
+            try:
+                import xdis.codetype.code311 as c311
+                res["positions_pp"] = [list(t) for t in c311.parse_positions(co.co_linetable, co.co_firstlineno)]
+            except Exception as e:
+                res["positions_pp_err"] = "%s: %s" % (type(e).__name__, e)
     if max_code is not None and len(code) > max_code:
         res["skipped"] = len(code)
         return res
@@ -830,6 +867,12 @@ def x_instr_dump(co, opc, max_code=None, dup_lines=False):
         if getattr(bc, "exception_entries", None) is not None:
             res["exc"] = [[e.start, e.end, e.target, e.depth, bool(e.lasti)]
                           for e in bc.exception_entries]
+        if opc.version_tuple >= (3, 11):
+            try:
+                res["exc_parsed"] = [[e.start, e.end, e.target, e.depth, bool(e.lasti)]
+                                     for e in x.bytecode.parse_exception_table(co.co_exceptiontable)]
+            except Exception as e:
+                res["exc_err"] = "%s: %s" % (type(e).__name__, e)
     except Exception as e:
         import traceback
         res["instrs_err"] = "%s: %s" % (type(e).__name__, e)
